@@ -24,7 +24,7 @@ import re
 from rules.common import *
 import runner
 
-TECHNIQUE = ('static analysis over rustc MIR: typed-identity rule on the shared indexer, derivation of has_tree/has_data receivers from the destination repository parameter, selection by max_by(cmp), must-pass directory test, per-blob kept-iff-indexed in closure and match form, memo-key dependence rule, R-ORDER ordering instances')
+TECHNIQUE = ('static analysis over rustc MIR: typed-identity rule on the shared indexer, derivation of has_tree/has_data receivers from the destination repository parameter, selection by max_by(cmp), must-pass directory test, per-blob kept-iff-indexed in closure and match form, memo-key dependence rule, crate-wide agreement of node-name ordering comparisons on the unescaped name (sibling comparator rule), R-ORDER ordering instances')
 LEVEL = "other"
 EXPLANATION = (
     "Guard, provenance and ordering rules over commands/copy.rs, merge.rs, blob/tree.rs (merge_nodes), the rewrite "
